@@ -39,6 +39,10 @@ fn craft_wm_codes(freq: &mut HashMap<usize, u32>, sigma: usize) -> Vec<PrefixCod
         .collect::<Vec<_>>();
 
     f.sort_by_key(|x| x.1);
+    #[cfg(qwt_verif)]
+    if crate::verif_hooks::tie_seed().is_some() {
+        f.sort_by_key(|x| (x.1, crate::verif_hooks::tie_key(x.0)));
+    }
 
     let mut c = vec![0; alph_size];
     let mut assignments = vec![PrefixCode { content: 0, len: 0 }; sigma + 1];
@@ -131,7 +135,13 @@ where
                 map
             });
 
+            #[cfg(qwt_verif)]
+            let verif_freqs: Vec<(usize, u32)> = freqs.iter().map(|(&k, &v)| (k, v)).collect();
+
             let mut lengths = Coding::from_frequencies(BitsPerFragment(1), freqs).code_lengths();
+
+            #[cfg(qwt_verif)]
+            crate::verif_hooks::permute_lengths_among_equal_frequencies(&verif_freqs, &mut lengths);
 
             let codes = craft_wm_codes(&mut lengths, sigma.as_());
 
